@@ -781,6 +781,11 @@ func (x *Exec) modTarget(m *ModItem, env *CEnv) []modTarget {
 					return x.fieldKeysUnder(ty, strings.Join(path[1:], "."), nil)
 				}
 			}
+			if strings.Contains(w.Tags, "tinywasm") {
+				// a contract shared by both build variants may name a type that only the default build has (the
+				// pipeline types); in the tinywasm load such an item names nothing, which only removes a permission
+				return nil
+			}
 			cfail("modifies: unknown type or variable %s", cur.Op)
 		}
 	}
